@@ -46,6 +46,9 @@ pub fn install() {
         let thread = std::thread::current().name().unwrap_or("?").to_string();
         if verbose {
             eprintln!("[panic] {file}:{line} ({thread}): {msg}");
+            if std::env::var("VERIF_BT").is_ok() {
+                eprintln!("{}", std::backtrace::Backtrace::force_capture());
+            }
         }
         LOG.lock().unwrap_or_else(|e| e.into_inner()).push(PanicRec { msg, file, line, thread });
     }));
